@@ -219,12 +219,21 @@ PROPS = {
                  "structure-first / facts-first / mixed with close() and cancelled close_until in between; after the final close: (1) the "
                  "naive rule check incl. the implicit inheritance rules, (2) isomorphism with a reference chase extended by inheritance, "
                  "(3) isomorphism with the model built by asserting everything at once. Classes carry /late-structure or /early-structure "
-                 "according to whether structure could arrive after a fact aged. Non-trivial = all three oracles ran; distinct = distinct "
-                 "final dumps per program."),
+                 "according to whether structure could arrive after a fact aged. A second family has a member TYPE: model Mo { type El; "
+                 "pred mp(El); optionally mq(El, Ca), mr(El, El), func mf(El) -> El } with 2-6 rules from 14 templates; its histories create "
+                 "elements inside objects (new_el(parent)), assert partial, non-injective morphism application graphs (insert_el_mor_app), "
+                 "member facts, and equalities between member elements, carriers and (where no cycle can arise) objects; the reference "
+                 "inherits a tuple with its member-typed components replaced by their images, only where all images are defined. At every "
+                 "poll and after every close all `_all` index copies of each member relation are compared: a run in which a copy with a "
+                 "member-typed column before the model column, or a diagonal copy, deviates is tagged /unmapped-order or /diagonal-copy "
+                 "(known findings KF-C17-2/3); a close that identifies objects, morphisms or member elements tags the run "
+                 "/late-structure-derived-merge (KF-C17-1). Non-trivial = all three oracles ran; distinct = distinct final dumps per program."),
         "real": MS_REAL,
         "stub": ["none"],
-        "assumptions": ["no member types / member functions (member predicates over global types only)",
-                        "objects and morphisms are never equated (cycles are C18's business)"],
+        "assumptions": ["member-type programs are surjective (no `!`): morphism applications are asserted through the API, not derived by a totality rule",
+                        "one member type per model, member functions of arity 1, no global predicates over member types (the compiler panics on `pred g(m: Mo, x: m.El)`)",
+                        "objects are equated only where the planned morphism graph stays acyclic; morphisms are never equated",
+                        "runs that overlap a known finding (probe *_runs_overlapping_a_known_finding) are judged only as far as the finding's witness allows"],
     },
     "C19": {
         "module": "build",
